@@ -48,25 +48,29 @@ SeqsUpTo(S, n) == UNION {[1..k -> S] : k \in 0..n}
 NumR(q) == Cardinality({i \in 1..Len(q) : q[i] = "R"})
 Docs(n) == {q \in SeqsUpTo(Letters, n) : NumR(q) <= 2}
 Kinds == {"func", "method", "var", "varfunc", "type", "iface", "const"}
-Places == {"none", "body", "tl", "ta", "hdr", "all"}
+Places == {"none", "body", "tl", "ta", "hdr", "imp", "all"}
 
 Sym(fi, di, w, j) == "runtime.s" \o ToString(fi) \o ToString(di) \o w \o ToString(j)
 Lines(q, fi, di, w) == [j \in 1..Len(q) |-> <<q[j], IF q[j] = "B" THEN "" ELSE Sym(fi, di, w, j)>>]
 MkDecl(fi, di, kind, doc, body, tl, ta) ==
   [kind |-> kind, name |-> "Fn" \o ToString(fi) \o "x" \o ToString(di),
+   recv |-> IF kind # "method" THEN "" ELSE IF di % 2 = 1 THEN "(*Recv" \o ToString(di) \o ")" ELSE "Recv" \o ToString(di),
    doc |-> Lines(doc, fi, di, "d"), body |-> Lines(body, fi, di, "b"),
    tl |-> Lines(tl, fi, di, "l"), ta |-> Lines(ta, fi, di, "a"), wide |-> 0]
-MkFile(fi, dir, ext, pkg, hdr, decls) ==
-  [dir |-> dir, name |-> "f" \o ToString(fi), ext |-> ext, pkg |-> pkg, hdr |-> Lines(hdr, fi, 0, "h"), decls |-> decls]
-InDomain(fs) == \A i \in 1..Len(fs) : P!FileInDomain(fs[i])
+PlainText == [eol |-> "lf", bom |-> 0, nonl |-> 0]
+MkFileI(fi, dir, ext, pkg, hdr, imp, decls) ==
+  [dir |-> dir, name |-> "f" \o ToString(fi), ext |-> ext, pkg |-> pkg, hdr |-> Lines(hdr, fi, 0, "h"),
+   imp |-> Lines(imp, fi, 0, "i"), text |-> PlainText, decls |-> decls]
+MkFile(fi, dir, ext, pkg, hdr, decls) == MkFileI(fi, dir, ext, pkg, hdr, <<>>, decls)
 
 If(c, q) == IF c THEN q ELSE <<>>
 FamDecl(n) ==
-  { << MkFile(1, <<"a">>, ".go", "a", If(pl \in {"hdr", "all"}, <<"R">>),
+  { << MkFileI(1, <<"a">>, ".go", "a", If(pl \in {"hdr", "all"}, <<"R">>), If(pl \in {"imp", "all"}, <<"R">>),
          << MkDecl(1, 1, k, doc, If(pl \in {"body", "all"}, <<"R">>), If(pl \in {"tl", "all"}, <<"R">>),
                    If(pl \in {"ta", "all"}, <<"R">>)) >>) >> : k \in Kinds, doc \in Docs(n), pl \in Places }
 
-FShapes == [kind : {"func", "var", "method"}, doc : {<<>>, <<"R">>, <<"R", "R">>, <<"T", "R">>, <<"R", "B">>}, ta : {<<>>, <<"R">>}]
+FShapes == {sh \in [kind : {"func", "var", "method"}, doc : {<<>>, <<"R">>, <<"R", "R">>, <<"T", "R">>, <<"R", "B">>}, ta : {<<>>, <<"R">>}] :
+              sh.ta = <<>> \/ sh.kind = "func"}
 FamFile(m) ==
   UNION { { << MkFile(1, <<>>, ".go", "main", <<>>,
                       [i \in 1..n |-> MkDecl(1, i, q[i].kind, q[i].doc, <<>>, <<>>, q[i].ta)]) >> : q \in [1..n -> FShapes] }
@@ -90,7 +94,18 @@ FamSize(ns) ==
   { << MkFile(1, <<"a">>, ".go", "a", <<>>, Insert(<<F1(1, 1, <<"R">>), F1(1, 2, <<"R", "R">>)>>, at, Big(form, n))) >>
       : at \in 1..3, form \in {"raw", "line", "block"}, n \in ns }
 
-Trees(dl, md, mf) == {t \in FamDecl(dl) \cup FamFile(md) \cup FamTree(mf) \cup FamSize(Sizes) : InDomain(t)}
+\* text: CRLF line ends, a byte-order mark, no newline after the last declaration - around two annotated functions and a var
+FamText == { << [MkFile(1, <<"a">>, ".go", "a", <<>>, <<F1(1, 1, <<"T", "R">>), MkDecl(1, 2, "var", <<"R">>, <<>>, <<>>, <<>>), F1(1, 3, <<"R", "D">>)>>)
+                   EXCEPT !.text = [eol |-> e, bom |-> b, nonl |-> n]] >> : e \in {"lf", "crlf"}, b \in {0, 1}, n \in {0, 1} }
+\* dup: one source symbol annotated on two functions; the same (symbol, function name) pair in two files of one directory
+\* (build-variant files) and twice on one function - one entry per annotation each time
+SameSym(d, sym) == [d EXCEPT !.doc = [j \in 1..Len(@) |-> <<@[j][1], IF @[j][1] = "R" THEN sym ELSE @[j][2]>>]]
+FamDup == { << MkFile(1, <<"a">>, ".go", "a", <<>>, <<SameSym(F1(1, 1, <<"R">>), "runtime.dup"), SameSym(F1(1, 2, <<"R">>), "runtime.dup")>>) >>,
+            << MkFile(1, <<"a">>, ".go", "a", <<>>, <<SameSym(F1(1, 1, <<"R">>), "runtime.dup")>>),
+               MkFile(2, <<"a">>, ".go", "a", <<>>, <<SameSym(F1(1, 1, <<"R">>), "runtime.dup")>>) >>,
+            << MkFile(1, <<>>, ".go", "kernel", <<>>, <<SameSym(F1(1, 1, <<"R", "T", "R">>), "runtime.dup")>>) >> }
+
+Trees(dl, md, mf) == FamDecl(dl) \cup FamFile(md) \cup FamTree(mf) \cup FamSize(Sizes) \cup FamText \cup FamDup
 
 --------------------------------------------------------------------------
 (* the design: FindRedirects *)
@@ -99,7 +114,11 @@ DAttached(doc) == IF Bug = "FloatingDoc" THEN SelectSeq(doc, LAMBDA ln : ln[1] #
 DAnnots(doc) == LET a == DAttached(doc) IN
                 IF Bug = "FirstLineOnly" THEN (IF a # <<>> /\ IsR(a[1]) THEN SelectSeq(a, IsR) ELSE <<>>)
                 ELSE SelectSeq(a, IsR)
-DIsFunc(d) == d.kind \in (IF Bug = "VarAccepted" THEN {"func", "method", "var", "varfunc", "const"} ELSE {"func", "method"})
+\* methods are not function declarations: skipped (MethodAsFunc: the design of the pinned tree, which took every ast.FuncDecl
+\* and named the destination importpath.Name even for a method)
+DIsFunc(d) == d.kind \in (CASE Bug = "VarAccepted" -> {"func", "var", "varfunc", "const"}
+                             [] Bug = "MethodAsFunc" -> {"func", "method"}
+                             [] OTHER -> {"func"})
 DDst(f, d) == IF Bug = "PkgFromClause" THEN Prefix \o "/" \o f.pkg \o "." \o d.name ELSE P!Dst(f.dir, d.name)
 DDeclEntries(f, d) ==
   IF ~DIsFunc(d) THEN <<>>
